@@ -68,6 +68,8 @@ var targets = []struct {
 	{"Area64", fnMode{Prefix: 4, PrefixRet: "a", PrefixType: "Int64"}},
 	{"PerpendicDistFromLineSqr64", fnMode{Float: true}},
 	{"getSegmentIntersectPt", fnMode{Float: true}},
+	{"PerpendicDistFromLineSqrD", fnMode{Float: true}},
+	{"areaTriangle", fnMode{Float: true}},
 	{"IsOdd", fnMode{}},
 	{"ptsReallyClose", fnMode{}},
 	{"clipperBase.isContributingClosed", fnMode{}},
@@ -296,6 +298,23 @@ func (t *tr) emitTypes(files []*ast.File) string {
 		}
 		sb.WriteString("  deriving DecidableEq, Repr, Inhabited\n\n")
 	}
+	// float structs (used by Float-mode functions only; Float has no decidable equality)
+	for _, name := range []string{"PointD"} {
+		obj := t.pkg.Scope().Lookup(name)
+		if obj == nil {
+			fail("struct %s not found", name)
+		}
+		st, ok := obj.Type().Underlying().(*types.Struct)
+		if !ok {
+			fail("%s is not a struct", name)
+		}
+		fmt.Fprintf(&sb, "structure %s where\n", name)
+		for i := 0; i < st.NumFields(); i++ {
+			f := st.Field(i)
+			fmt.Fprintf(&sb, "  %s : %s\n", f.Name(), t.leanTypeOf(f.Type(), fnMode{Float: true}, nil))
+		}
+		sb.WriteString("  deriving Repr, Inhabited\n\n")
+	}
 	// read-only views of engine structs: only the fields the translated
 	// functions read; the field must exist in the Go struct with that type.
 	views := []struct {
@@ -381,7 +400,7 @@ func (t *tr) leanTypeOf(ty types.Type, mode fnMode, subst map[string]types.Type)
 	if named, ok := ty.(*types.Named); ok {
 		n := named.Obj().Name()
 		switch n {
-		case "Point64", "Rect64", "UInt128Struct", "LocalMinima", "Active", "clipperBase":
+		case "Point64", "Rect64", "UInt128Struct", "LocalMinima", "Active", "clipperBase", "PointD":
 			return n
 		case "Path64":
 			return "(List Point64)"
